@@ -73,6 +73,7 @@ class Sweep:
         self.bulk = False  # bulk cross-backend sweep (plain flavours)
         self.cold = False  # one run per fresh process, simulated execution before the reference run
         self.nviol = 0  # runs with a violation in their result line
+        self.heap_restarts = 0
         self.hangs = []  # (index, seed): a worker printed nothing for HANG_S seconds of wall clock and was killed
         self.wstate = {}
         self.stopped_early = False
@@ -109,6 +110,7 @@ class Sweep:
             self.wstate[wid] = st
             cur = None
             done = False
+            heap_full = False
             errbuf = []
             et = threading.Thread(target=lambda: errbuf.extend(p.stderr.readlines()), daemon=True)
             et.start()
@@ -144,14 +146,24 @@ class Sweep:
                             self.crashes.append((int(parts[1]), int(parts[2]), int(parts[3].split("=")[1])))
                     elif tag == "F":
                         parts = line.split(None, 3)
-                        with self.lock:
-                            self.fatals.append((int(parts[1]), int(parts[2]), parts[3].strip()))
+                        if "simulated-heap-exhausted" in parts[3]:
+                            # the code under test keeps (or leaks) heap blocks across runs until the 16 GiB arena is full:
+                            # not a finding of any listed property; a fresh worker starts with an empty arena
+                            self.heap_restarts += 1
+                            heap_full = True
+                        else:
+                            with self.lock:
+                                self.fatals.append((int(parts[1]), int(parts[2]), parts[3].strip()))
                     elif tag == "D":
                         done = True
             finally:
                 killer.cancel()
             rc = p.wait()
             et.join(timeout=2)
+            if heap_full and cur is not None:
+                start = cur[0]  # the same run again, in a fresh process
+                self.restarts += 1
+                continue
             if st["hung"]:
                 if cur is not None:
                     with self.lock:
